@@ -104,25 +104,35 @@ def binding_selftest(c, binp):
                     break
     if rc != 0 or not idx:
         c.fail_tool("binding self-test: could not record a usable trace")
-    i = idx[len(idx) // 2]
-    variants = {"orig": lines}
-    cor = [dict(e) for e in lines]
-    cor[i] = dict(cor[i], out={"kind": "err", "class": "duplicate"})
-    variants["corrupt-field"] = cor
-    variants["drop-event"] = lines[:i] + lines[i + 1:]
-    for name, ls in variants.items():
+    def accepted_by_tlc(name, ls):
         pth = os.path.join(c.work, "self_%s.ndjson" % name)
         write_ndjson(pth, ls)
         r = c.tlc(SD, "Trace_Reassembly", mode="trace", env={"TRACE": pth}, timeout=600, expect_violation=True)
-        accepted = r.ok and not r.postcondition_failed and not r.violated
-        if name == "orig" and not accepted:
-            # the code does not follow the I-spec on this trace: that is conformance drift (or a violation found
-            # by the steps below), not a tool problem; the self-test needs a conforming trace, so skip it
-            c.drift("binding self-test skipped: the recorded self-test trace is not accepted by Trace_Reassembly (%s)" % ",".join(r.violated or ["postcondition"]))
-            c.cov["binding_selftest"] = "skipped (trace of the current code rejected)"
-            return
-        if name != "orig" and accepted:
-            c.fail_tool("binding self-test: trace variant '%s' was accepted - the trace spec does not constrain the code" % name)
+        return (r.ok and not r.postcondition_failed and not r.violated), r
+
+    ok, r = accepted_by_tlc("orig", lines)
+    if not ok:
+        # the code does not follow the I-spec on this trace: that is conformance drift (or a violation found
+        # by the steps below), not a tool problem; the self-test needs a conforming trace, so skip it
+        c.drift("binding self-test skipped: the recorded self-test trace is not accepted by Trace_Reassembly (%s)" % ",".join(r.violated or ["postcondition"]))
+        c.cov["binding_selftest"] = "skipped (trace of the current code rejected)"
+        return
+    # A dropped event only matters if the slot it went into is the one that later completes (the slot may be
+    # reclaimed in between), so several candidates are tried: at least one of each kind must be rejected.
+    cands = [idx[(k * len(idx)) // 8] for k in range(8)] if len(idx) >= 8 else idx
+    rejected = {"corrupt-field": False, "drop-event": False}
+    for n, i in enumerate(dict.fromkeys(cands)):
+        if not rejected["corrupt-field"]:
+            cor = [dict(e) for e in lines]
+            cor[i] = dict(cor[i], out={"kind": "err", "class": "duplicate"})
+            rejected["corrupt-field"] = not accepted_by_tlc("corrupt-field_%d" % n, cor)[0]
+        if not rejected["drop-event"]:
+            rejected["drop-event"] = not accepted_by_tlc("drop-event_%d" % n, lines[:i] + lines[i + 1:])[0]
+        if all(rejected.values()):
+            break
+    missing = [k for k, v in rejected.items() if not v]
+    if missing:
+        c.fail_tool("binding self-test: no '%s' variant of the recorded trace was rejected (%d candidates) - the trace spec does not constrain the code" % (",".join(missing), len(cands)))
     c.cov["binding_selftest"] = "orig accepted; corrupt-field and drop-event rejected"
 
 
